@@ -97,8 +97,9 @@ def r09_3(ctx):
     q = ctx.explore(m['get'])
     opens = q.prim_edges('open_ro')
     hits = q.terminals(lambda ev: ev['k'] == 'ret' and ev.get('variant') == 'Ok' and ev.get('variant2') == 'Some')
-    stats = [e for e in q.prim_edges('probe') if any(obj_root(arg_role(q.E[e][2], 'handle') or -1) == obj_root(q.E[o][2]['res']) or
-                                                      q.E[o][2]['res'] in values.subs(arg_role(q.E[e][2], 'handle') or q.E[o][2]['res']) for o in opens)]
+    open_res = {q.E[o][2]['res'] for o in opens}
+    stats = [e for e in q.prim_edges('probe') if 'handle' in prims.classify(q.E[e][2]['path'])[1] and arg_role(q.E[e][2], 'handle') is not None
+             and (values.subs(arg_role(q.E[e][2], 'handle')) & open_res)]
     esc = q.must_follow(outcomes(q, opens, 'Ok'), stats, hits)
     out.append(inst('R09.3', 'retouch exists', bool(stats) and not esc, 'after open:Ok every path to the hit exit stats the handle for the re-touch' if stats and not esc else
                     'a successful lookup can return without the explicit re-touch (atime is then left to the mount\'s policy)'))
